@@ -145,7 +145,7 @@ Redo(ovf) == CASE last.op = "with" -> With(last.ty, R, P, ovf)
                [] last.op = "from_partial" -> FromPartial(last.ty, P, ovf)
                [] last.op = "new" -> last.out        \* constructors are compared through their own two transitions
 RejectRefinesConstrain ==
-  (Done /\ last.op # "new" /\ last.ovf = "constrain") => LET r == Redo("reject") IN r.kind = "ok" => last.out = r
+  (Done /\ last.op # "new" /\ last.ovf = "constrain" /\ "half" \notin DOMAIN last) => LET r == Redo("reject") IN r.kind = "ok" => last.out = r
 
 \* (6) TypeError exactly for an empty record or one missing a required field
 TypeErrorIff ==
